@@ -44,7 +44,7 @@ CHECKS = {
  "C13": ("exploration", "history monitor: one evaluator over 2..12 mixed calls vs fresh evaluators, deep datum snapshots before/after, syntax-tree invariant",
          "Histories mix data whose selected values change kind, errors included; each call is compared with a fresh evaluator; canonical deep snapshots detect any write to the datum; the AST (incl. spare slice capacity) must be unchanged.",
          "Fresh-evaluator results are the specification of history independence.", "DESIGN.md §4 C13"),
- "C14": ("exploration", "repetition monitor: 120-200 repetitions x 3 insertion orders of maps whose element outcomes mix true/false/error; hook-built short-lived collections under forced garbage collections",
+ "C14": ("exploration", "repetition monitor: 120-200 repetitions x 3 insertion orders of maps whose element outcomes mix true/false/error; hook-built short-lived collections under forced garbage collections; maps not keyed by plain strings",
          "Order-sensitive cases (by the reference) are generated on purpose in every binding mode; all repetitions must agree; filters over maps likewise.",
          "Relies on Go's per-iteration randomisation (observed and reported).", "DESIGN.md §4 C14"),
  "C15": ("exploration", "differential monitor against an independent hand-written PEG recogniser; exhaustive token sequences + mutated derivations",
